@@ -161,6 +161,18 @@ def eval_case(case):
         rng0 = random.Random("C16:%s:%s:%s" % (case["seed"], case["i"], case["strategy"]))
         full = scen.gen_scenario(rng0, strategy=case["strategy"], feasible=True, max_steps=40)
         full["variant"] = case["variant"]
+        if case["variant"] == "shift" and "time_windows" in full["meta"]:
+            # the property quantifies over shifts within one window season
+            full["meta"]["time_windows"]["default_grid_operator"]["s1"]["end"] = "2020-12-31"
+        if case["variant"] == "shift" and rng0.random() < 0.5:
+            # a fixed-load series of 9-16 days that differs from week to week (it feeds the weekly averages used
+            # for load prediction well beyond the simulated steps), so that shifted runs cross a month boundary
+            sc = full["scenario"]
+            for g, gc in sc["components"]["grid_connectors"].items():
+                lvl = rng0.choice([0.1, 0.3, 0.5]) * gc["max_power"]
+                sc["events"]["fixed_load"]["load_" + g] = {
+                    "start_time": sc["scenario"]["start_time"], "step_duration_s": 3600, "grid_connector_id": g,
+                    "values": [round(lvl * rng0.uniform(0.3, 1.0), 3) for _ in range(24 * rng0.randint(9, 16))]}
         full["vseed"] = "%s:%s" % (case["seed"], case["i"])
         full["pid"] = "C16"
     var, strat = full["variant"], full["strategy"]
